@@ -1,8 +1,9 @@
 """C15 — circuit adjoint, basic-gate expansion, concatenation, statistics."""
 import sys
 import os
+from fractions import Fraction as Fr
 
-from .. import hir, rtable, rops, paths
+from .. import circsem as cs, minirust, hir, rtable, rops, paths
 from ..controls import fixture
 
 sys.path.insert(0, os.path.dirname(os.path.dirname(os.path.dirname(os.path.abspath(__file__)))))
@@ -637,6 +638,170 @@ def d4_size_table(f):
     return None
 
 
+# ---------------------------------------------------------------- evaluation on small circuits (round 2; qxlib/circsem.py)
+
+def _sem(kind, phase):
+    """denotation class of a unitary gate: diag -> (arity, hset, phase mod 2); had / perm -> the kind; parity -> ('parity', phase)"""
+    g = G.GATES[kind]
+    if g['cls'] == 'diag':
+        return ('diag', g['arity'], g['hset'], (Fr(phase) if g['phase'] == 'param' else Fr(g['phase'])) % 2)
+    if g['cls'] == 'parity':
+        return ('parity', Fr(phase) % 2)
+    return (g['cls'], kind)
+
+
+def _adj(sem):
+    if sem[0] == 'diag':
+        return ('diag', sem[1], sem[2], (-sem[3]) % 2)
+    if sem[0] == 'parity':
+        return ('parity', (-sem[1]) % 2)
+    return sem
+
+
+def ev_adjoint_table(facts):
+    """Gate::adjoint evaluated on every unitary kind with phase 1/8: kind -> (ok, got, want)"""
+    out = {}
+    for v in G.UNITARY:
+        ar = G.GATES[v]['arity'] or 3
+        g = cs.gate(v, list(range(ar)), Fr(1, 8))
+        cs.call(facts, 'gate::Gate::adjoint', [g])
+        k2, qs, p2 = cs.out_gate(g)
+        if k2 not in G.GATES or qs != tuple(range(ar)):
+            out[v] = (False, (k2, qs, p2), 'a gate of the same arity on the same qubits')
+            continue
+        got, want = _sem(k2, p2), _adj(_sem(v, Fr(1, 8)))
+        out[v] = (got == want, '%s(%s)' % (k2, p2), want)
+    return out
+
+
+def _gates(n):
+    """n gates none of which is self-adjoint, on pairwise different qubit lists"""
+    pool = [('T', [0]), ('ZPhase', [1]), ('S', [2]), ('Tdg', [3]), ('XPhase', [4]), ('Sdg', [5]), ('ParityPhase', [0, 1])]
+    return [cs.gate(k, qs, Fr(1, 8)) for k, qs in pool[:n]]
+
+
+def _three(facts, n=4, split=None):
+    return cs.circuit(6, _gates(n), split)
+
+
+def ev_circuit_adjoint(facts, key='circuit::Circuit::adjoint', inplace=True):
+    """(reverses, adjoints-each, untouched, detail): the result on circuits of 0..6 gates (every ring-buffer layout of the gate deque) against
+    `reverse order` and `Gate::adjoint of each`"""
+    rev_all = adj_all = untouched_all = True
+    detail = ''
+    for n in range(0, 7):
+        for split in ([None] + list(range(1, n))):
+            c = _three(facts, n, split)
+            before = [cs.out_gate(g) for g in c['gates']]
+            r = cs.call(facts, key, [c])
+            res = c if inplace else r
+            after = [cs.out_gate(g) for g in res['gates']]
+            each = []
+            for k, qs, ph in before:
+                g = cs.gate(k, qs, ph)
+                cs.call(facts, 'gate::Gate::adjoint', [g])
+                each.append(cs.out_gate(g))
+            rev = [x[1] for x in after] == [x[1] for x in reversed(before)]
+            bykey = dict((x[1], x) for x in after)
+            adj = len(after) == len(before) and all(bykey.get(e[1]) == e for e in each)
+            untouched = inplace or [cs.out_gate(g) for g in c['gates']] == before
+            if not (rev and adj and untouched) and not detail:
+                detail = 'a circuit of %d gates%s, %s, becomes %s' % (n, '' if split is None else ' (deque laid out as %d + %d)' % (split, n - split), [(k, q) for k, q, _p in before], [(k, q) for k, q, _p in after])
+            rev_all, adj_all, untouched_all = rev_all and rev, adj_all and adj, untouched_all and untouched
+    return rev_all, adj_all, untouched_all, detail
+
+
+def ev_expansion(facts):
+    """[(kind, n, pushed gates, advertised count)] for every kind on its arity (parity-phase: 0..8)"""
+    out = []
+    for v in rtable.enum_variants(facts, GT):
+        ar = G.GATES[v]['arity'] if v in G.GATES else 1
+        for n in ([ar] if ar is not None else list(range(0, 9))) if v != 'UnknownGate' else [1]:
+            g = cs.gate(v, [2 * i + 1 for i in range(n)], Fr(1, 8))
+            c = cs.circuit(20, [])
+            cs.call(facts, 'gate::Gate::push_basic_gates', [g, c])
+            adv = cs.call(facts, 'gate::Gate::num_basic_gates', [g])
+            out.append((v, n, [cs.out_gate(x) for x in c['gates']], adv))
+    return out
+
+
+def ev_stats(facts):
+    """CircuitStats::make on single-gate circuits of every kind / arity 1..4 / Clifford and non-Clifford phase, and on their concatenation.
+    -> list of (key, ok, message)"""
+    res = []
+    allg = []
+    variants = rtable.enum_variants(facts, GT)
+    for v in variants:
+        for n in (1, 2, 3, 4):
+            for ph, phname in ((Fr(1, 2), 'Clifford phase'), (Fr(1, 4), 'non-Clifford phase')):
+                g = cs.gate(v, list(range(n)), ph)
+                allg.append((v, n, ph))
+                st = cs.call(facts, 'circuit::CircuitStats::make', [cs.circuit(5, [g])])
+                size = {k: st[k] for k in ('oneq', 'twoq', 'moreq')}
+                cls = {k: st[k] for k in ('cliff', 'non_cliff')}
+                want_size = {'oneq': int(n == 1), 'twoq': int(n == 2), 'moreq': int(n > 2)}
+                ok_size = size == want_size
+                ok_one = sorted(cls.values()) == [0, 1]
+                want_cls = None
+                if v in G.CLIFFORD_FIXED:
+                    want_cls = 'cliff'
+                elif v in ('T', 'Tdg', 'CCZ', 'TOFF'):
+                    want_cls = 'non_cliff'
+                elif v in ('ZPhase', 'XPhase'):
+                    want_cls = 'cliff' if ph.denominator <= 2 else 'non_cliff'
+                ok_cls = ok_one and (want_cls is None or cls[want_cls] == 1)
+                res.append((v, n, phname, ok_size, ok_cls, st['total'] == 1 and st['qubits'] == 5, size, cls))
+    return res
+
+
+def _seq_from_expansion(ck, exp):
+    bygate = dict(((v, n), gates) for v, n, gates, _a in exp)
+    for kind in ('CCZ', 'TOFF'):
+        gates = bygate[(kind, 3)]
+        pos = {1: 0, 3: 1, 5: 2}
+        ok_q = all(q in pos for _k, qs, _p in gates for q in qs)
+        seq = [(k, [pos[q] for q in qs]) for k, qs, _p in gates] if ok_q else None
+        u = seq_unitary(seq, 3) if seq is not None and all(k in G.GATES and G.GATES[k]['phase'] != 'param' for k, _q in seq) else None
+        ref = seq_unitary([(kind, [0, 1, 2])], 3)
+        ok = u is not None and all(abs(u[i][j] - ref[i][j]) < 1e-9 for i in range(8) for j in range(8))
+        ck.ob3('R-TABLE-seq', 'push_basic_gates/%s/sequence' % kind, (None if (ok_q and u is None) else ok), ck.site('gate::Gate::push_basic_gates'),
+               'the %d-gate expansion of %s does not multiply out to the %s matrix (sequence evaluated from the source: %s)' % (len(gates), kind, kind, [(k, q) for k, q, _p in gates]),
+               sample={'gates': len(gates), 'first': str(gates[:3])})
+    # parity phase: exact phase-polynomial semantics over F2 for arities 0..8
+    pp_ok, pp_why, counts = True, '', {}
+    for n in range(0, 9):
+        gates = bygate[('ParityPhase', n)]
+        qmap = dict((2 * i + 1, i) for i in range(n))
+        wires = [frozenset([i]) for i in range(n)]
+        terms = {}
+        for kind, qs, ph in gates:
+            if kind == 'CNOT' and len(qs) == 2 and qs[0] != qs[1] and all(q in qmap for q in qs):
+                wires[qmap[qs[1]]] = wires[qmap[qs[1]]] ^ wires[qmap[qs[0]]]
+            elif kind == 'ZPhase' and len(qs) == 1 and qs[0] in qmap:
+                terms[wires[qmap[qs[0]]]] = (terms.get(wires[qmap[qs[0]]], 0) + ph) % 2
+            elif pp_ok:
+                pp_ok, pp_why = False, 'for arity %d the expansion emits %s on %s: only CNOTs on two distinct wires of the gate and ZPhase gates are admissible' % (n, kind, qs)
+        terms = dict((k, v_) for k, v_ in terms.items() if v_ != 0)
+        if pp_ok and wires != [frozenset([i]) for i in range(n)]:
+            bad = [i for i in range(n) if wires[i] != frozenset([i])]
+            pp_ok, pp_why = False, ('for a parity-phase gate on %d qubits the CNOTs are not undone: wire(s) %s end up holding the parity of %s — the uncompute ladder must undo the compute ladder; emitted: %s'
+                                    % (n, bad, [sorted(wires[i]) for i in bad], [(k2, q) for k2, q, _p in gates]))
+        if pp_ok and terms != ({frozenset(range(n)): Fr(1, 8)} if n else {}):
+            pp_ok, pp_why = False, 'for a parity-phase gate on %d qubits with phase 1/8 the phase terms are %s (expected exactly 1/8 on the parity of all %d qubits)' % (n, [(sorted(t), str(v_)) for t, v_ in terms.items()], n)
+        counts[n] = len(gates)
+    ck.ob('R-TABLE-seq', 'push_basic_gates/ParityPhase/phase-polynomial', pp_ok, ck.site('gate::Gate::push_basic_gates'), pp_why, sample={'arities': '0..8', 'gates_emitted': counts})
+
+
+def seq_obligations(ck, facts):
+    """R-TABLE-seq (shared with C02-D3): the compound expansions denote their gates — evaluation first, syntactic reading as three-valued fallback"""
+    try:
+        _seq_from_expansion(ck, ev_expansion(facts))
+    except cs.DECLINED as ex:
+        ck.note('push_basic_gates: the evaluator declined (%s); syntactic reading used' % ex)
+        for key, ok, why, sample in d2_structure(facts):
+            ck.ob3('R-TABLE-seq', 'push_basic_gates/' + key, True if ok else (None if ('not-established' in (why or '') or 'not understood' in (why or '') or 'shape' in key) else False), ck.site('gate::Gate::push_basic_gates'), why, sample=sample)
+
+
 def run(ck):
     facts = ck.facts
     ck.decided('D1 Gate::adjoint maps every unitary kind to the kind with the same Hadamard set and the negated phase (table derived from the gate semantics); Circuit::adjoint reverses AND adjoints each gate',
@@ -651,94 +816,196 @@ def run(ck):
     ck.ob('R-TABLE-ref', 'GType/variants-known', not missing, GT, 'gate kinds without reference semantics: %s (the reference table must be extended before the clause can be decided)' % missing)
     # D1
     ck.fn('gate::Gate::adjoint')
-    r = d1_adjoint_table(facts)
-    if r is None:
-        ck.violation('R-TABLE-adjoint', 'gate::Gate::adjoint/shape', ck.site('gate::Gate::adjoint'), 'anchor-missing: no single match over GType in Gate::adjoint')
-    else:
-        table, problems = r
-        n = 0
-        for v in variants:
-            ref = G.adjoint_ref(v) if v in G.GATES else None
-            if ref is None:
-                continue
-            n += 1
-            ck.ob('R-TABLE-adjoint', 'gate::Gate::adjoint/%s' % v, table.get(v) == ref, ck.site('gate::Gate::adjoint', None),
-                  'adjoint of %s is %s, reference (same Hadamard set, negated phase) is %s' % (v, table.get(v), ref), sample={'kind': v, 'effect': str(table.get(v))})
-        ck.floor('R-TABLE-adjoint', n, 16)
+    try:
+        tab = ev_adjoint_table(facts)
+        for v, (ok, got, want) in sorted(tab.items()):
+            ck.ob('R-TABLE-adjoint', 'gate::Gate::adjoint/%s' % v, ok, ck.site('gate::Gate::adjoint', None),
+                  'the adjoint of %s(1/8) evaluates to %s, which does not denote the inverse %s (same Hadamard set, negated phase)' % (v, got, want), sample={'kind': v, 'adjoint': str(got)})
+        ck.floor('R-TABLE-adjoint', len(tab), 16)
+        ck.note('Gate::adjoint: decided by evaluation on every unitary kind')
+    except cs.DECLINED as ex:
+        ck.note('Gate::adjoint: the evaluator declined (%s); syntactic table used' % ex)
+        r = d1_adjoint_table(facts)
+        if r is None:
+            ck.violation('R-TABLE-adjoint', 'gate::Gate::adjoint/shape', ck.site('gate::Gate::adjoint'), 'Gate::adjoint is neither evaluable (%s) nor a single match over GType' % ex)
+        else:
+            table, problems = r
+            n = 0
+            for v in variants:
+                ref = G.adjoint_ref(v) if v in G.GATES else None
+                if ref is None:
+                    continue
+                n += 1
+                ck.ob3('R-TABLE-adjoint', 'gate::Gate::adjoint/%s' % v, True if table.get(v) == ref else (None if (table.get(v) or ('other',))[0] == 'other' else False), ck.site('gate::Gate::adjoint', None),
+                       'adjoint of %s is %s, reference (same Hadamard set, negated phase) is %s' % (v, table.get(v), ref), sample={'kind': v, 'effect': str(table.get(v))})
+            ck.floor('R-TABLE-adjoint', n, 16)
     f = ck.fn('circuit::Circuit::adjoint')
-    rev, each = d1_circuit_adjoint(f)
-    ck.ob('R-EFFECT', 'circuit::Circuit::adjoint/reverses', rev, ck.site('circuit::Circuit::adjoint'), 'Circuit::adjoint does not reverse the gate list')
-    ck.ob('R-EFFECT', 'circuit::Circuit::adjoint/adjoints-each', each, ck.site('circuit::Circuit::adjoint'), 'Circuit::adjoint does not adjoint every gate unconditionally')
-    rf = ck.fn('circuit::Circuit::reverse')
-    revs = [c for c in hir.calls(rf['hir']) if c.get('k') == 'MethodCall' and c['name'] == 'reverse']
-    ok = len(revs) == 1 and hir.place(hir.strip(_base_recv(revs[0]))) is not None and ('f', 'gates') in hir.place(hir.strip(_base_recv(revs[0])))[2]
-    ck.ob('R-EFFECT', 'circuit::Circuit::reverse', ok, ck.site('circuit::Circuit::reverse'), 'Circuit::reverse does not reverse self.gates exactly once')
-    ta = ck.fn('circuit::Circuit::to_adjoint')
-    adj = hir.calls_to(ta['hir'], 'circuit::Circuit::adjoint')
-    ck.ob('R-EFFECT', 'circuit::Circuit::to_adjoint', len(adj) == 1, ck.site('circuit::Circuit::to_adjoint'), 'to_adjoint does not call adjoint exactly once on its copy')
+    try:
+        rev, each, _u, detail = ev_circuit_adjoint(facts)
+        ck.ob('R-EFFECT', 'circuit::Circuit::adjoint/reverses', rev, ck.site('circuit::Circuit::adjoint'), 'Circuit::adjoint does not reverse the gate list: ' + detail)
+        ck.ob('R-EFFECT', 'circuit::Circuit::adjoint/adjoints-each', each, ck.site('circuit::Circuit::adjoint'), 'Circuit::adjoint does not adjoint every gate: ' + detail)
+        rv_ok, rv_detail = True, ''
+        for n in range(0, 7):
+            for split in ([None] + list(range(1, n))):
+                c = _three(facts, n, split)
+                before = [cs.out_gate(g) for g in c['gates']]
+                cs.call(facts, 'circuit::Circuit::reverse', [c])
+                if [cs.out_gate(g) for g in c['gates']] != before[::-1] and rv_ok:
+                    rv_ok, rv_detail = False, '%d gates%s: %s becomes %s' % (n, '' if split is None else ' with the deque laid out as %d + %d' % (split, n - split), [q for _k, q, _p in before], [q for _k, q, _p in [cs.out_gate(g) for g in c['gates']]])
+        ck.ob('R-EFFECT', 'circuit::Circuit::reverse', rv_ok, ck.site('circuit::Circuit::reverse'), 'Circuit::reverse does not reverse self.gates: ' + rv_detail)
+        rev2, each2, untouched, detail2 = ev_circuit_adjoint(facts, 'circuit::Circuit::to_adjoint', inplace=False)
+        ck.ob('R-EFFECT', 'circuit::Circuit::to_adjoint', rev2 and each2 and untouched, ck.site('circuit::Circuit::to_adjoint'), 'to_adjoint must return the adjoint of a copy and leave the circuit as it is: ' + detail2)
+        ck.note('Circuit::adjoint / reverse / to_adjoint: decided by evaluation on circuits of 0..6 gates in every two-slice layout of the deque')
+    except cs.DECLINED as ex:
+        ck.note('Circuit::adjoint: the evaluator declined (%s); syntactic reading used' % ex)
+        rev, each = d1_circuit_adjoint(f)
+        ck.ob3('R-EFFECT', 'circuit::Circuit::adjoint/reverses', True if rev else None, ck.site('circuit::Circuit::adjoint'), 'Circuit::adjoint is not evaluable (%s) and no reversal of the gate list was recognised' % ex)
+        ck.ob3('R-EFFECT', 'circuit::Circuit::adjoint/adjoints-each', True if each else None, ck.site('circuit::Circuit::adjoint'), 'Circuit::adjoint is not evaluable (%s) and no unconditional loop adjointing every gate was recognised' % ex)
+        rf = ck.fn('circuit::Circuit::reverse')
+        revs = [c for c in hir.calls(rf['hir']) if c.get('k') == 'MethodCall' and c['name'] == 'reverse']
+        ok = len(revs) == 1 and hir.place(hir.strip(_base_recv(revs[0]))) is not None and ('f', 'gates') in hir.place(hir.strip(_base_recv(revs[0])))[2]
+        ck.ob3('R-EFFECT', 'circuit::Circuit::reverse', True if ok else None, ck.site('circuit::Circuit::reverse'), 'Circuit::reverse is not evaluable and does not reverse self.gates exactly once in the recognised way')
+        ta = ck.fn('circuit::Circuit::to_adjoint')
+        adj = hir.calls_to(ta['hir'], 'circuit::Circuit::adjoint')
+        ck.ob3('R-EFFECT', 'circuit::Circuit::to_adjoint', True if len(adj) == 1 else None, ck.site('circuit::Circuit::to_adjoint'), 'to_adjoint is not evaluable and does not call adjoint exactly once on its copy')
     # D2
     ck.fn('gate::Gate::push_basic_gates')
     ck.fn('gate::Gate::num_basic_gates')
-    exp = d2_expansion(facts)
-    if exp is None:
-        ck.violation('R-COUNT', 'shape', ck.site('gate::Gate::push_basic_gates'), 'anchor-missing: no single match over GType')
-    else:
-        for v, n, pushed, adv, err in exp:
-            ck.ob('R-COUNT', 'push_basic_gates/%s/n=%s' % (v, n), err is None and pushed == adv, ck.site('gate::Gate::push_basic_gates'),
-                  err or ('%s on %s qubits: push_basic_gates pushes %s gates, num_basic_gates advertises %s' % (v, n, pushed, adv)),
-                  sample={'kind': v, 'n': n, 'pushed': pushed, 'advertised': adv})
+    try:
+        exp = ev_expansion(facts)
+        emitted = set()
+        for v, n, gates, adv in exp:
+            ck.ob('R-COUNT', 'push_basic_gates/%s/n=%s' % (v, n), len(gates) == adv, ck.site('gate::Gate::push_basic_gates'),
+                  '%s on %s qubits: push_basic_gates pushes %s gates, num_basic_gates advertises %s' % (v, n, len(gates), adv), sample={'kind': v, 'n': n, 'pushed': len(gates), 'advertised': adv})
+            emitted |= set((g[0], len(g[1])) for g in gates if v in G.UNITARY)
         ck.floor('R-COUNT', len(exp), 21)
-    for key, ok, why, sample in d2_structure(facts):
-        ck.ob('R-TABLE-seq', 'push_basic_gates/' + key, ok, ck.site('gate::Gate::push_basic_gates'), why, sample=sample)
-    tb = ck.fn('circuit::Circuit::to_basic_gates')
-    tfors = hir.find(tb['hir'], 'For')
-    ok = len(tfors) == 1 and hir.plain_field_loop(tfors[0], 'self', 'gates')
-    if ok:
-        vid = [i for _n, i in hir.bindings(tfors[0]['pat'])]
-        ok = len(hir.unconditional_calls(hir.stmts_of(tfors[0]['body']), lambda c: hir.callee(c) == 'gate::Gate::push_basic_gates' and hir.local(c['recv']) and hir.local(c['recv'])[1] in vid)) == 1
-    ck.ob('R-EFFECT', 'circuit::Circuit::to_basic_gates/every-gate-in-order', ok, ck.site('circuit::Circuit::to_basic_gates'),
-          'to_basic_gates must expand every gate of self.gates, in order, unconditionally')
-    nq = [n for n in hir.nodes(tb['hir']) if n.get('k') == 'Struct' and n['ctor'].get('path') == 'circuit::Circuit']
-    ok = len(nq) == 1 and any(fn == 'nqubits' and hir.strip(e).get('k') == 'Field' and hir.strip(e)['name'] == 'nqubits' and hir.local_name(hir.strip(e)['e']) == 'self' for fn, e in nq[0]['fields'])
-    ck.ob('R-EFFECT', 'circuit::Circuit::to_basic_gates/same-qubits', ok, ck.site('circuit::Circuit::to_basic_gates'), 'the expanded circuit must have self.nqubits qubits')
-    em = emitted_kinds(facts, ['gate::Gate::push_basic_gates', 'gate::Gate::push_ccz_decomp'])
-    for i, (key, kind, node) in enumerate(em):
-        ck.ob('R-EMIT-basic', '%s/site-%d' % (key, i), kind in G.BASIC, ck.site(key, node),
-              'expansion emits %s, which is not a one- or two-qubit basic gate' % (kind or 'a non-constant kind: ' + hir.pp(node)[:50]), sample={'kind': kind})
-    ck.floor('R-EMIT-basic', len(em), 5)
+        bad_em = sorted(k for k, a in emitted if k not in G.BASIC and k not in ('SWAP',)) + sorted('%s on %d qubits' % (k, a) for k, a in emitted if a > 2)
+        ck.ob('R-EMIT-basic', 'push_basic_gates/emitted-kinds', not bad_em, ck.site('gate::Gate::push_basic_gates'), 'the expansion of a unitary gate emits %s, which is not a one- or two-qubit basic gate' % bad_em, sample={'emitted': sorted(emitted)})
+        ck.floor('R-EMIT-basic', len(emitted), 5)
+        _seq_from_expansion(ck, exp)
+        # to_basic_gates: every gate expanded in order, same qubit count
+        c = cs.circuit(20, [cs.gate(v, [2 * i + 1 for i in range(n)], Fr(1, 8)) for v, n, _g, _a in exp])
+        b = cs.call(facts, 'circuit::Circuit::to_basic_gates', [c])
+        want = []
+        for g in c['gates']:
+            c2 = cs.circuit(20, [])
+            cs.call(facts, 'gate::Gate::push_basic_gates', [g, c2])
+            want += [cs.out_gate(x) for x in c2['gates']]
+        ck.ob('R-EFFECT', 'circuit::Circuit::to_basic_gates/every-gate-in-order', [cs.out_gate(x) for x in b['gates']] == want, ck.site('circuit::Circuit::to_basic_gates'),
+              'to_basic_gates must expand every gate of self.gates, in order, unconditionally (a circuit with one gate of every kind and arity expands to %d gates, the expansions of its gates have %d)' % (len(b['gates']), len(want)))
+        ck.ob('R-EFFECT', 'circuit::Circuit::to_basic_gates/same-qubits', b.get('nqubits') == 20, ck.site('circuit::Circuit::to_basic_gates'), 'the expanded circuit must have self.nqubits qubits (20 becomes %s)' % b.get('nqubits'))
+        ck.note('push_basic_gates / num_basic_gates / to_basic_gates: decided by evaluation (every kind; parity-phase arities 0..8)')
+    except cs.DECLINED as ex:
+        ck.note('push_basic_gates: the evaluator declined (%s); syntactic reading used' % ex)
+        exp = d2_expansion(facts)
+        if exp is None:
+            ck.violation('R-COUNT', 'shape', ck.site('gate::Gate::push_basic_gates'), 'push_basic_gates is neither evaluable (%s) nor a single match over GType' % ex)
+        else:
+            for v, n, pushed, adv, err in exp:
+                ck.ob3('R-COUNT', 'push_basic_gates/%s/n=%s' % (v, n), None if err is not None else (pushed == adv), ck.site('gate::Gate::push_basic_gates'),
+                       err or ('%s on %s qubits: push_basic_gates pushes %s gates, num_basic_gates advertises %s' % (v, n, pushed, adv)),
+                       sample={'kind': v, 'n': n, 'pushed': pushed, 'advertised': adv})
+            ck.floor('R-COUNT', len(exp), 21)
+        for key, ok, why, sample in d2_structure(facts):
+            ck.ob3('R-TABLE-seq', 'push_basic_gates/' + key, True if ok else (None if ('not-established' in (why or '') or 'not understood' in (why or '') or 'shape' in key) else False), ck.site('gate::Gate::push_basic_gates'), why, sample=sample)
+        tb = ck.fn('circuit::Circuit::to_basic_gates')
+        tfors = hir.find(tb['hir'], 'For')
+        ok = len(tfors) == 1 and hir.plain_field_loop(tfors[0], 'self', 'gates')
+        if ok:
+            vid = [i for _n, i in hir.bindings(tfors[0]['pat'])]
+            ok = len(hir.unconditional_calls(hir.stmts_of(tfors[0]['body']), lambda c: hir.callee(c) == 'gate::Gate::push_basic_gates' and hir.local(c['recv']) and hir.local(c['recv'])[1] in vid)) == 1
+        ck.ob3('R-EFFECT', 'circuit::Circuit::to_basic_gates/every-gate-in-order', True if ok else None, ck.site('circuit::Circuit::to_basic_gates'),
+               'to_basic_gates is not evaluable and not of the recognised form (expand every gate of self.gates, in order, unconditionally)')
+        nq = [n for n in hir.nodes(tb['hir']) if n.get('k') == 'Struct' and n['ctor'].get('path') == 'circuit::Circuit']
+        ok = len(nq) == 1 and any(fn == 'nqubits' and hir.strip(e).get('k') == 'Field' and hir.strip(e)['name'] == 'nqubits' and hir.local_name(hir.strip(e)['e']) == 'self' for fn, e in nq[0]['fields'])
+        ck.ob3('R-EFFECT', 'circuit::Circuit::to_basic_gates/same-qubits', True if ok else None, ck.site('circuit::Circuit::to_basic_gates'), 'the expanded circuit must have self.nqubits qubits')
+        em = emitted_kinds(facts, ['gate::Gate::push_basic_gates', 'gate::Gate::push_ccz_decomp'])
+        for i, (key, kind, node) in enumerate(em):
+            ck.ob3('R-EMIT-basic', '%s/site-%d' % (key, i), None if kind is None else (kind in G.BASIC), ck.site(key, node),
+                   'expansion emits %s, which is not a one- or two-qubit basic gate' % (kind or 'a non-constant kind: ' + hir.pp(node)[:50]), sample={'kind': kind})
     # D3
     adds = [x for x in rops.op_impls(facts, lambda s: s.replace('&', '').strip() == 'circuit::Circuit') if x[1] == 'Add']
     for key, op, is_assign, _s in adds:
-        d = concat_descriptor(ck.fn(key))
-        ok = (d[0] == 'append' and d[1] == 'self' and d[2] == 'rhs' and d[3] == 'in-order' and d[4]) or (d[0] == 'forward' and d[1] == 'self' and d[2] == 'rhs')
-        ck.ob('R-OPS-concat', key, ok, ck.site(key), 'concatenation must append rhs.gates after self.gates in order; found %s' % (d,), sample={'descriptor': str(d)})
+        ck.fn(key)
+        try:
+            a, b = cs.circuit(6, _gates(3), 1), cs.circuit(6, _gates(7)[4:], 2)
+            ga, gb = [cs.out_gate(g) for g in a['gates']], [cs.out_gate(g) for g in b['gates']]
+            r = cs.call(facts, key, [a, b])
+            res = a if is_assign else r
+            got = [cs.out_gate(g) for g in res['gates']]
+            ck.ob('R-OPS-concat', key, got == ga + gb and res.get('nqubits') == 6, ck.site(key),
+                  'concatenation must append rhs.gates after self.gates in order: %s + %s evaluates to %s' % ([q for _k, q, _p in ga], [q for _k, q, _p in gb], [q for _k, q, _p in got]))
+        except cs.DECLINED as ex:
+            d = concat_descriptor(ck.fn(key))
+            ok = (d[0] == 'append' and d[1] == 'self' and d[2] == 'rhs' and d[3] == 'in-order' and d[4]) or (d[0] == 'forward' and d[1] == 'self' and d[2] == 'rhs')
+            definite = d[0] == 'append' and d[1] == 'self' and d[2] == 'rhs' and d[3] != 'in-order'
+            ck.ob3('R-OPS-concat', key, True if ok else (False if definite else None), ck.site(key), 'concatenation is not evaluable (%s); syntactic reading: %s — it must append rhs.gates after self.gates in order' % (ex, d,), sample={'descriptor': str(d)})
     ck.floor('R-OPS-concat', len(adds), 5)
     # D4
     mk = ck.fn('circuit::CircuitStats::make')
+    try:
+        st = ev_stats(facts)
+        nsz = ncl = 0
+        bad_size = [(v, n, size) for v, n, _ph, ok_size, _c, _t, size, _cl in st if not ok_size]
+        bad_tot = [(v, n) for v, n, _ph, _s, _c, ok_t, _sz, _cl in st if not ok_t]
+        ck.ob('R-PARTITION', 'size-table', not bad_size, ck.site('circuit::CircuitStats::make'),
+              'a circuit with one gate on n qubits must count it in exactly one of oneq (n = 1), twoq (n = 2), moreq (n > 2): %s' % bad_size[:3], sample={'cases': len(st)})
+        ck.ob('R-PARTITION', 'all-gates', not bad_tot, ck.site('circuit::CircuitStats::make'), 'total / qubits of a one-gate circuit on 5 qubits are wrong for %s' % bad_tot[:3])
+        for v in rtable.enum_variants(facts, GT):
+            rows = [(n, ph, cls) for v2, n, ph, _s, ok_cls, _t, _sz, cls in st if v2 == v and not ok_cls]
+            ck.ob('R-PARTITION', 'class-table/%s' % v, not rows, ck.site('circuit::CircuitStats::make'),
+                  '%s must be counted in exactly one of cliff / non_cliff%s: %s' % (v, {'ZPhase': ' (Clifford exactly when its phase is)', 'XPhase': ' (Clifford exactly when its phase is)'}.get(v, ''), rows[:2]))
+        # additivity: the statistics of a concatenation are the sums
+        gs = [cs.gate('T', [0]), cs.gate('CNOT', [0, 1]), cs.gate('ZPhase', [2], Fr(1, 2)), cs.gate('TOFF', [0, 1, 2]), cs.gate('ZPhase', [1], Fr(1, 4)), cs.gate('HAD', [2])]
+        tot = cs.call(facts, 'circuit::CircuitStats::make', [cs.circuit(3, gs)])
+        parts = [cs.call(facts, 'circuit::CircuitStats::make', [cs.circuit(3, [g])]) for g in gs]
+        add_ok = all(tot[k] == sum(p_[k] for p_ in parts) for k in ('total', 'oneq', 'twoq', 'moreq', 'cliff', 'non_cliff'))
+        ck.ob('R-PARTITION', 'additive', add_ok, ck.site('circuit::CircuitStats::make'), 'the statistics of a six-gate circuit (%s) are not the sums of the statistics of its gates' % {k: tot[k] for k in ('total', 'oneq', 'twoq', 'moreq', 'cliff', 'non_cliff')})
+        ck.floor('R-PARTITION', len(st), 160)
+        ck.note('CircuitStats::make: decided by evaluation on %d one-gate circuits and one six-gate circuit' % len(st))
+        ck.note('XCX is counted as non-Clifford by CircuitStats (outside the statement: the partition is consistent)')
+    except cs.DECLINED as ex:
+        ck.note('CircuitStats::make: the evaluator declined (%s); syntactic reading used' % ex)
+        _d4_syntactic(ck, facts, mk, variants, str(ex))
+    # positive controls
+    fx = fixture()
+    t2 = d1_adjoint_table(fx, 'gate::Gate::adjoint')
+    ck.control('R-TABLE-adjoint flags a missing Tdg arm', t2 is not None and t2[0].get('Tdg') != G.adjoint_ref('Tdg'))
+    e2 = d2_expansion(fx)
+    ck.control('R-COUNT flags a miscounted expansion', e2 is not None and any(err or p != a for _v, _n, p, a, err in e2))
+    ck.control('R-OPS-concat flags a prepend', concat_descriptor(fx['fns']['<circuit::Circuit as std::ops::AddAssign<&circuit::Circuit>>::add_assign'])[:3] != ('append', 'self', 'rhs'))
+    r4 = d4_partition(fx['fns']['circuit::CircuitStats::make'])
+    ck.control('R-PARTITION flags a double increment', r4 is not None and any(not ok for ok, _p, _s, _c in r4))
+
+
+def _d4_syntactic(ck, facts, mk, variants, why):
+    """the pre-round-2 syntactic reading of CircuitStats::make, three-valued: a recognised good shape discharges, anything else is undecided"""
+    def _ob(rule, key, ok, site, msg, sample=None):
+        ck.ob3(rule, key, True if ok else None, site, 'CircuitStats::make is not evaluable (%s) and not of the recognised shape: %s' % (why, msg), sample)
     res = d4_partition(mk)
     if res is None:
         ck.violation('R-PARTITION', 'shape', ck.site('circuit::CircuitStats::make'), 'anchor-missing: expected exactly one loop over the gates')
     else:
         for i, (ok, p, size, cls) in enumerate(res):
-            ck.ob('R-PARTITION', 'circuit::CircuitStats::make/path-%d' % i, ok, ck.site('circuit::CircuitStats::make'),
+            _ob('R-PARTITION', 'circuit::CircuitStats::make/path-%d' % i, ok, ck.site('circuit::CircuitStats::make'),
                   'path %s increments size counters %s and class counters %s (need exactly one of each, by one)' % (p.cond_texts(), size, cls),
                   sample={'conds': p.cond_texts(), 'size': size, 'class': cls})
         ck.floor('R-PARTITION', len(res), 12)
     mfors = hir.find(mk['hir'], 'For')
-    ck.ob('R-PARTITION', 'all-gates', len(mfors) == 1 and hir.plain_field_loop(mfors[0], 'c', 'gates'), ck.site('circuit::CircuitStats::make'),
+    _ob('R-PARTITION', 'all-gates', len(mfors) == 1 and hir.plain_field_loop(mfors[0], 'c', 'gates'), ck.site('circuit::CircuitStats::make'),
           'the statistics loop must visit every gate of the circuit (plain iteration over c.gates)')
     st = d4_size_table(mk)
-    ck.ob('R-PARTITION', 'size-table', st == {'1': ['oneq'], '2': ['twoq'], '_': ['moreq']}, ck.site('circuit::CircuitStats::make'),
+    _ob('R-PARTITION', 'size-table', st == {'1': ['oneq'], '2': ['twoq'], '_': ['moreq']}, ck.site('circuit::CircuitStats::make'),
           'qubit-count table is %s, expected 1->oneq, 2->twoq, other->moreq' % st, sample={'table': str(st)})
     ms = [m for m in rtable.enum_matches(mk, GT)]
     if len(ms) == 1:
         t, _ = rtable.match_table(ms[0], GT, variants)
         for v in G.CLIFFORD_FIXED:
             incs = [hir.strip(n['l'])['name'] for n in hir.nodes(t[v]['body']) if n.get('k') == 'AssignOp' and hir.strip(n['l']).get('k') == 'Field']
-            ck.ob('R-PARTITION', 'class-table/%s' % v, incs == ['cliff'], ck.site('circuit::CircuitStats::make'), 'Clifford gate %s is counted as %s' % (v, incs))
+            _ob('R-PARTITION', 'class-table/%s' % v, incs == ['cliff'], ck.site('circuit::CircuitStats::make'), 'Clifford gate %s is counted as %s' % (v, incs))
         for v in ('T', 'Tdg', 'CCZ', 'TOFF'):
             incs = [hir.strip(n['l'])['name'] for n in hir.nodes(t[v]['body']) if n.get('k') == 'AssignOp' and hir.strip(n['l']).get('k') == 'Field']
-            ck.ob('R-PARTITION', 'class-table/%s' % v, incs == ['non_cliff'], ck.site('circuit::CircuitStats::make'), 'non-Clifford gate %s is counted as %s' % (v, incs))
+            _ob('R-PARTITION', 'class-table/%s' % v, incs == ['non_cliff'], ck.site('circuit::CircuitStats::make'), 'non-Clifford gate %s is counted as %s' % (v, incs))
         for v in ('ZPhase', 'XPhase'):
             body = t[v]['body']
             ifs = [n for n in hir.nodes(body) if n.get('k') == 'If']
@@ -752,19 +1019,10 @@ def run(ck):
                     ti = [hir.strip(n['l'])['name'] for n in hir.nodes(ifs[0]['then']) if n.get('k') == 'AssignOp']
                     ei = [hir.strip(n['l'])['name'] for n in hir.nodes(ifs[0]['else']) if n.get('k') == 'AssignOp'] if ifs[0].get('else') else []
                     ok = (ti, ei) == ((['non_cliff'], ['cliff']) if neg else (['cliff'], ['non_cliff']))
-            ck.ob('R-PARTITION', 'class-table/%s' % v, ok, ck.site('circuit::CircuitStats::make'), 'phase gate %s must be Clifford exactly when its phase is Clifford' % v)
+            _ob('R-PARTITION', 'class-table/%s' % v, ok, ck.site('circuit::CircuitStats::make'), 'phase gate %s must be Clifford exactly when its phase is Clifford' % v)
         ck.note('XCX is counted as non-Clifford by CircuitStats (outside the statement: the partition is consistent)')
     else:
         ck.violation('R-PARTITION', 'class-table/shape', ck.site('circuit::CircuitStats::make'), 'anchor-missing: no single match over GType')
-    # positive controls
-    fx = fixture()
-    t2 = d1_adjoint_table(fx, 'gate::Gate::adjoint')
-    ck.control('R-TABLE-adjoint flags a missing Tdg arm', t2 is not None and t2[0].get('Tdg') != G.adjoint_ref('Tdg'))
-    e2 = d2_expansion(fx)
-    ck.control('R-COUNT flags a miscounted expansion', e2 is not None and any(err or p != a for _v, _n, p, a, err in e2))
-    ck.control('R-OPS-concat flags a prepend', concat_descriptor(fx['fns']['<circuit::Circuit as std::ops::AddAssign<&circuit::Circuit>>::add_assign'])[:3] != ('append', 'self', 'rhs'))
-    r4 = d4_partition(fx['fns']['circuit::CircuitStats::make'])
-    ck.control('R-PARTITION flags a double increment', r4 is not None and any(not ok for ok, _p, _s, _c in r4))
 
 
 def _base_recv(c):
